@@ -169,6 +169,7 @@ Do(st, tok) ==
     [] tok = "q1big"  -> Awaited(st, 1, 0, 200, "big", FALSE)
     [] tok = "s1"     -> Awaited(st, 1, 0, 6, "none", TRUE)
     [] tok = "s1long" -> Awaited(st, 1, 0, 6, "encode", TRUE)
+    [] tok = "c0"     -> Chunk(st, 0)          \* an empty piece: nothing is written, the payload is still owed
     [] tok = "c2"     -> Chunk(st, 2)
     [] tok = "c4"     -> Chunk(st, 4)
     [] tok = "c7"     -> Chunk(st, 7)
